@@ -23,6 +23,8 @@ CHILD = os.path.join(HERE, "simchild.py")
 DEFAULT_SRC = os.environ.get("RP2SIM_SRC", "/repo/src")
 RUN_TIMEOUT = float(os.environ.get("RP2SIM_RUN_TIMEOUT", "60"))
 
+COMMON_HELPERS = ["soffice", "libreoffice", "localc", "xdg-open", "open", "less", "more", "git", "unzip", "zip", "file", "tput", "notify-send", "curl", "wget", "gpg",
+                  "pdftotext", "sensible-browser", "gnome-open", "xclip", "pbcopy", "sendmail", "lsb_release", "hostname"]
 ENTRY = {c: "rp2.plugin.country.%s" % c for c in ("us", "jp", "es", "ie", "generic")}
 
 
@@ -163,8 +165,20 @@ class World:
         self.tmp = os.path.join(self.world, "tmp")
         for d in (self.work, self.home, self.tmp):
             os.makedirs(d)
+        self.bin = os.path.join(self.world, "bin")
+        os.makedirs(self.bin)
         self.nruns = 0
         self.put_paths = set()  # files laid out by the harness (inputs, configs): never mistaken for reports when -o is their directory
+
+    def install_helpers(self, names):
+        """Executables a program might look for (shutil.which) before using them: present on the simulated host's PATH, so that the
+        'only when the tool is installed' paths run. They do nothing; starting one is refused and recorded by the stub anyway."""
+        for n in names:
+            p = os.path.join(self.bin, n)
+            if not os.path.exists(p):
+                with open(p, "w", encoding="utf-8") as fh:
+                    fh.write("#!/bin/sh\nexit 0\n")
+                os.chmod(p, 0o755)
 
     def put(self, rel, data, mode=None, mtime=None):
         path = os.path.join(self.work, rel)
@@ -239,7 +253,7 @@ def build_argv(opts, config_arg, input_arg):
 
 def host_env(host, opts, w):
     env = {
-        "PATH": "/usr/bin:/bin",
+        "PATH": w.bin + ":/usr/bin:/bin",
         "HOME": w.home,
         "TMPDIR": w.tmp,
         "PYTHONPATH": host.get("src") or DEFAULT_SRC,
@@ -288,6 +302,7 @@ def run(w, world_files, opts, host=None, faults=None, crash_at=None, interrupt_a
     if src:
         host["src"] = src
     src_root = host.get("src") or DEFAULT_SRC
+    w.install_helpers(COMMON_HELPERS + list(host.get("helper_programs") or []))
     w.nruns += 1
     rundir = os.path.join(w.root, "run%d" % w.nruns)
     os.makedirs(rundir)
